@@ -7,6 +7,7 @@ package utils
 
 import (
 	"bytes"
+	"path/filepath"
 	"strings"
 )
 
@@ -287,3 +288,17 @@ func OpaqueTrimSpace(s string) string { return strings.TrimSpace(s) }
 //@   results r
 //@   ensures r == OpaqueTrimSpace(s)
 //@   ensures implies(len(s) == 0, len(r) == 0)
+
+// ---- paths: for an absolute, cleaned directory appending "/name" and filepath.Join agree ----
+
+// OpaqueCleanPath: filepath.Clean leaves p as it is (uninterpreted for the prover).
+func OpaqueCleanPath(p string) bool { return filepath.Clean(p) == p }
+
+// SpecRootLike: an absolute, cleaned path other than "/".
+func SpecRootLike(p string) bool { return len(p) > 1 && p[0] == '/' && OpaqueCleanPath(p) }
+
+// SpecWord: a non-empty run of lower-case letters and dashes (a directory name of the layout).
+func SpecWord(s string) bool {
+	return len(s) > 0 && forall(0, len(s), func(i int) bool { return ('a' <= s[i] && s[i] <= 'z') || s[i] == '-' })
+}
+
